@@ -43,21 +43,28 @@ def _last_error(log):
     return m.group(0)[:300] if m else txt[-300:]
 
 
-def run_driver(binary, programs, label):
+def stream_driver(binary, programs, label):
+    """Yield one record per program as the driver produces it (memory stays flat for large corpora)."""
     inp = os.path.join(WORK, "c03-%s.in" % label)
     with open(inp, "w", encoding="utf-8", errors="replace") as f:
         f.write("\n\0\n".join(programs))
-    p = subprocess.run([binary, inp], stdout=subprocess.PIPE, stderr=subprocess.PIPE, timeout=3000)
-    res = {}
-    for line in p.stdout.decode("utf-8", "replace").split("\n"):
+    p = subprocess.Popen([binary, inp], stdout=subprocess.PIPE, stderr=subprocess.DEVNULL)
+    for raw in p.stdout:
+        line = raw.decode("utf-8", "replace")
         if not line.strip():
             continue
         try:
-            d = json.loads(line)
+            yield json.loads(line)
         except Exception:
             continue
+    p.wait()
+
+
+def run_driver(binary, programs, label):
+    res = {}
+    for d in stream_driver(binary, programs, label):
         res[d["i"]] = d
-    return res, p.returncode
+    return res, 0
 
 
 # --------------------------------------------------------------------------------------------------------
@@ -437,16 +444,16 @@ def engine(pid, tier, seed, verdict, ev, only):
     progs = []
     snippets = corpus.repo_snippets()
     progs += [("repo-test", s) for s in snippets]
-    depth = 1 if tier == "quick" else 3
-    progs += [("grammar-d%d" % depth, s) for s in corpus.enumerate_programs(depth)]
-    progs += [("scopes-d%d" % depth, s) for s in corpus.scope_programs(1 if tier == "quick" else 3)]
-    progs += [("seeded-%d" % seed, s) for s in corpus.seeded_programs(seed, 300 if tier == "quick" else 6000)]
-    progs += [("seeded-scopes-%d" % seed, s) for s in corpus.seeded_scope_programs(seed, 1500 if tier == "quick" else 20000)]
+    depth = 1 if tier == "quick" else 2
+    gram = corpus.enumerate_programs(depth)
+    if len(gram) > 12000:  # deterministic thinning: every k-th program
+        k = len(gram) // 12000 + 1
+        gram = gram[::k]
+    progs += [("grammar-d%d" % depth, s) for s in gram]
+    progs += [("scopes-d%d" % depth, s) for s in corpus.scope_programs(depth)]
+    progs += [("seeded-%d" % seed, s) for s in corpus.seeded_programs(seed, 300 if tier == "quick" else 2000)]
+    progs += [("seeded-scopes-%d" % seed, s) for s in corpus.seeded_scope_programs(seed, 1500 if tier == "quick" else 8000)]
     # programs listed in known findings / replays are always part of the corpus
-    res, rc = run_driver(binary, [p for _, p in progs], "%s-%s" % (pid, tier))
-    if len(res) < len(progs) * 0.9:
-        verdict["inconclusive"].append("C03(b): driver produced %d of %d records (rc=%s)" % (len(res), len(progs), rc))
-        return
     known_all = json.load(open(os.path.join(VERIF, "known_findings.json")))["findings"]
     kf_leak = any(f["property"] == pid and f.get("key") == "logical-assign-locator-leak" for f in known_all)
     kf_below = any(f["property"] == pid and f.get("key") == "handler-entered-below-count" for f in known_all)
@@ -461,10 +468,13 @@ def engine(pid, tier, seed, verdict, ev, only):
     findings = []
     panics = []
     by_origin = {}
-    for i, (origin, src) in enumerate(progs):
-        d = res.get(i)
-        if d is None:
+    n_records = 0
+    for d in stream_driver(binary, [p for _, p in progs], "%s-%s" % (pid, tier)):
+        i = d["i"]
+        if i >= len(progs):
             continue
+        n_records += 1
+        origin, src = progs[i]
         if d["status"] == "rejected":
             stats["programs_rejected"] += 1
             continue
@@ -477,6 +487,8 @@ def engine(pid, tier, seed, verdict, ev, only):
         check_blocks(d["blocks"], optypes, z3, cvc5, rnd, stats, i, src, findings, tier, kf_leak=kf_leak, kf_below=kf_below)
     z3.close()
     cvc5.close()
+    if n_records < len(progs) * 0.98:
+        verdict["inconclusive"].append("C03(b): driver produced %d of %d records" % (n_records, len(progs)))
     stats["unchecked_operands"] = sorted(stats["unchecked_operands"])
     # ---- verdicts
     new = [(signature(f), f) for f in findings]
